@@ -237,7 +237,63 @@ def gauss_cases(slot: int, mono: Any, mname: str) -> list[tuple[str, str]]:
         (f"clean:{tag}", clean(total, cs) or clean(vol, cs))]
 
 
+def curvilinear_volume_cases(system: str) -> list[tuple[str, str]]:
+    """Gauss in cylindrical / spherical coordinates: the volume integral of the divergence over a
+    coordinate box (shell, ball sector) against an own integral of the chain-rule divergence with
+    the Jacobian of the position map; three coordinate-system instances one after the other"""
+    from symplyphysics import CoordinateSystem, Vector
+    from symplyphysics.core.fields.vector_field import VectorField
+    from symplyphysics.core.fields import analysis as A
+    from .. import vecref
+    out = []
+    S = getattr(CoordinateSystem.System, system.upper())
+    if system == "cylindrical":
+        limits = ((1, 2), (0, 2 * sp.pi), (0, h))
+    else:
+        limits = ((0, Rr), (0, 2 * sp.pi), (0, sp.pi))
+    for inst in range(3):
+        cs = CoordinateSystem(S)
+        q = cs.coord_system.base_scalars()
+        ref = vecref.ChainRule(system, q)
+        pos = vecref.position(system, q)
+        J = sp.simplify(sp.Matrix(3, 3, lambda i, k: sp.diff(pos[i], q[k])).det())
+        J = sp.Abs(J) if system == "cylindrical" else sp.simplify(sp.Abs(J).subs(sp.Abs(sp.sin(q[2])),
+            sp.sin(q[2])))
+        fields = [[1, 0, 0], [q[0], 0, 0], [q[0]**2, 0, q[0]], [0, q[0], 0], [0, 0, q[0] * sp.cos(q[1])
+            if system == "cylindrical" else q[0]], [q[0] * sp.cos(q[1])**2, 0, 0]]
+        for F in fields:
+            tag = f"gauss-{system}#{inst}:{F}".replace(str(cs.coord_system), "S")
+            fld = VectorField.from_vector(Vector(F, cs))
+            got = call(A.flux_across_volume_boundary, fld, *limits)
+            div = sp.simplify(ref.div(F))
+            want = sp.integrate(sp.simplify(div * J), (q[2], *limits[2]), (q[1], *limits[1]), (q[0],
+                *limits[0]))
+            bad = clean(got, cs)
+            out.append((tag, bad or ("" if equal(got, want) else
+                f"volume integral of the divergence in {system} coordinates (instance {inst}) is "
+                f"{short(got)}, reference {short(sp.simplify(want))}")))
+    return out
+
+
 def _work(item: tuple) -> dict:
+    if item[0] == "curvilinear":
+        res0: dict[str, Any] = {"n": 0, "keys": [], "outcomes": {}, "violations": [], "undecided": [],
+            "samples": []}
+        try:
+            with time_limit(300):
+                cases0 = curvilinear_volume_cases(item[1])
+        except (CaseTimeout, SympyCrash) as ex:
+            res0["n"] = 1
+            res0["undecided"].append((f"curvilinear:{item[1]}", f"{type(ex).__name__}: {ex}"))
+            return res0
+        res0["n"] = len(cases0)
+        for k0, v0 in cases0:
+            res0["keys"].append(k0)
+            res0["outcomes"]["holds" if not v0 else "fails"] = res0["outcomes"].get("holds" if not v0
+                else "fails", 0) + 1
+            if v0:
+                res0["violations"].append((k0, v0, {"item": ["curvilinear", item[1], ""], "key": k0}))
+        return res0
     kind, slot, mtxt = item
     mono = sp.sympify(mtxt, locals={"x": x, "y": y, "z": z})
     res: dict[str, Any] = {"n": 0, "keys": [], "outcomes": {}, "violations": [], "undecided": [],
@@ -276,6 +332,7 @@ def main(run: Run) -> int:
         for m in ms + TRIG:
             items.append(("planar", slot, str(m)))
             items.append(("box", slot, str(m)))
+    items += [("curvilinear", "cylindrical", ""), ("curvilinear", "spherical", "")]
     for r in pmap(_work, rotate(items, run.seed)):
         n = r.pop("n")
         run.evaluations += n
